@@ -104,6 +104,12 @@ func TestVsim(t *testing.T) {
 		}
 	}
 
+	if *flagReplay != "" && *flagMode == "minimize" {
+		stop := startWatchdog(*flagWatchdog, func() string { return "minimize " + *flagReplay })
+		defer stop()
+		minimizeMain(t)
+		return
+	}
 	if *flagReplay != "" {
 		replayMain(t, enc)
 		return
